@@ -31,6 +31,7 @@ CASES = {
     'arc':        ('G12', None, 'none', '9'),
     'helix':      ('G13', None, 'imp', '9'),
     'skin':       ('G2', None, 'skin', '9'),
+    'wire+arc-fuzzy': ('W+A', None, 'imp', '9'),
 }
 
 
@@ -59,7 +60,12 @@ def _media(M, kind, P):
 def _build(M, case, P):
     gname, mk, lk, ver = CASES[case]
     med = _media(M, mk, P)
-    m = catalogue.build(M, gname, f=P['f'], media=med if med is not None else 'ideal')
+    if gname == 'W+A':
+        # an arc whose first end only fuzzy-matches the end of an earlier wire (cos 90 deg = 6e-17)
+        geo = [M.Wire(3, 0.0, 0.0, 0.0, 0.0, 0.0, 1.0, 0.001, tag=1), M.Arc(4, 1.0, 90.0, 180.0, 0.001, tag=2)]
+        m = M.Mininec(P['f'], geo)
+    else:
+        m = catalogue.build(M, gname, f=P['f'], media=med if med is not None else 'ideal')
     n = len(m.pulses)
     sp = [0, n - 1] if n > 1 else [0]
     srcs = [M.Excitation(v) for v in P['V'][:len(sp)]]
@@ -195,8 +201,39 @@ def basic_input(ck, sh, mm, case):
     ck.bounds.setdefault('cases', []).append('%s: %s' % (case, CASES[case]))
 
 
+def basic_pulse_points(wires, ground):
+    """Pulse positions as BASIC MININEC creates them: wire ends are connected only when their
+    coordinates are EXACTLY equal (single precision, as read from the input) or on the ground plane;
+    per wire: [pulse at end 1 if connected to an earlier wire or grounded], interior joints,
+    [pulse at end 2 if connected or grounded]."""
+    f32 = lambda p: tuple(float(np.float32(float(x))) for x in p)
+    seen = []
+    pts = []
+    for ns, e1, e2, r in wires:
+        a, b = f32(e1), f32(e2)
+        A, B = np.array([float(x) for x in e1]), np.array([float(x) for x in e2])
+        c1 = (ground and a[2] == 0.0) or a in seen
+        c2 = (ground and b[2] == 0.0) or b in seen
+        if c1:
+            pts.append(A)
+        for i in range(1, ns):
+            pts.append(A + (B - A) * i / ns)
+        if c2:
+            pts.append(B)
+        seen += [a, b]
+    return pts
+
+
 def _same_pulses(mm, rd, m):
-    """Rebuild the wires with the real package; same pulse count, numbering, and pulse points."""
+    """Same pulse count, numbering and pulse points (a) as BASIC MININEC would create them from the
+    written wires (exact end matching) and (b) when the wires are rebuilt with the real package."""
+    bp = basic_pulse_points(rd['wires'], rd['ground'])
+    if len(bp) != len(m.pulses):
+        return False
+    for a, b in zip(bp, m.pulses):
+        pb = np.array([float(x) for x in b.point])
+        if not np.allclose(a, pb, rtol=1e-6, atol=1e-6):
+            return False
     geo = [mm.Wire(ns, *[float(x) for x in e1], *[float(x) for x in e2], float(r)) for ns, e1, e2, r in rd['wires']]
     try:
         m2 = mm.Mininec(7.0, geo, media=[mm.Medium(0, 0)] if rd['ground'] else None)
@@ -264,7 +301,7 @@ def replay_basic(mm, case, P):
 def main(args):
     ck = Check('C18', args)
     ck.shadow_stats = symx.load().stats
-    names = ['free-imp', 'gnd-ideal', 'lap-v9', 'lap-v12', 'media2', 'taper', 'arc'] if ck.tier == 'quick' else list(CASES)
+    names = ['free-imp', 'gnd-ideal', 'lap-v9', 'lap-v12', 'media2', 'taper', 'arc', 'wire+arc-fuzzy'] if ck.tier == 'quick' else list(CASES)
     run_parallel(ck, 'checks.c18', [('basic_input', (n,)) for n in names])
     ck.assumptions += ['%g/%.12g conversions read back exactly in this check (their 6-digit precision is what "to the precision of the '
                        'printed parameters" allows; the check is about units, order and content)',
